@@ -88,6 +88,17 @@ def unstuff_step(out, escaped, err, x):
 unstuff = Fold("unstuff", [("out", "bytes", b""), ("escaped", "bool", False), ("err", "bool", False)], unstuff_step)
 
 
+def _short_byte_strings():
+    """inputs for the concrete search after a refuted loop obligation: all strings up to length 3 over a
+    reserved-byte-rich alphabet"""
+    import itertools
+
+    alphabet = (0x7D, 0x7E, 0x5D, 0x5E, 0x11, 0x31, 0x00, 0x1A)
+    for n in range(0, 4):
+        for tup in itertools.product(alphabet, repeat=n):
+            yield {"data": {"__bytes__": bytes(tup).hex(), "mutable": False}}
+
+
 # ---------------------------------------------------------------------------------------------------
 # randomisation
 # ---------------------------------------------------------------------------------------------------
@@ -168,13 +179,20 @@ def _(c):
     # "a frame with ... invalid escape never produces an upward delivery": an escaped byte that is not
     # a reserved value, or an ESCAPE with nothing after it, is rejected
     c.raises("invalid_escape", ash.ParsingError, when=None)
-    c.ensures("post.raise_means_invalid", lambda _pre, _x: unstuff(_pre + bytes([_x]))[2], on="raise")
+    # raised inside the loop at byte _x after the prefix _pre: that prefix ends in an invalid escaped byte;
+    # raised after the loop (_x is None): the whole frame ends with a dangling ESCAPE
+    c.ensures(
+        "post.raise_means_invalid",
+        lambda data, _pre, _x: (unstuff(_pre)[1] and _pre == data) if _x is None else unstuff(_pre + bytes([_x]))[2],
+        on="raise",
+    )
     c.ensures(
         "post.returns_spec_unstuffing",
         lambda data, result: result == unstuff(data)[0] and not unstuff(data)[2],
     )
     c.ensures("post.no_dangling_escape", lambda data: not unstuff(data)[1])
     c.returns(T.bytes)
+    c.search_space = _short_byte_strings
 
 
 # ---------------------------------------------------------------------------------------------------
@@ -316,3 +334,184 @@ def _(c):
     )
     c.ensures("post.accepted_has_valid_crc", lambda data: not rejected_by_crc_or_length(data))
     c.ensures("post.only_parsing_errors", lambda raised: isinstance(raised, Exception), on="raise")
+
+
+# ---------------------------------------------------------------------------------------------------
+# what the host writes: prefix ++ stuff(frame) ++ suffix
+# ---------------------------------------------------------------------------------------------------
+from contracts import index as _index
+from pyvc.contracts import REGISTRY as _REG
+
+_wf = _REG.contracts["bellows.ash.AshProtocol._write_frame"]
+_wf.props = sorted(set(_wf.props) | {"C03"})
+_wf.ensures(
+    "post.wire_image",
+    lambda frame, prefix, suffix, fx: transport_writes(fx) == [bytes(prefix) + stuff(frame.to_bytes()) + bytes(suffix)],
+)
+# a DATA payload longer than the pseudo-random table cannot be randomised: to_bytes asserts (the property
+# quantifies payloads up to 200 bytes; EZSP frames are shorter)
+_wf.raises("payload_too_long", AssertionError, when=lambda frame: type(frame) is ash.DataFrame and len(frame.ezsp_frame) > 256)
+_wf.cases_ = [
+    ("ack", {"frame": AckFrameT, "prefix": T.const(()), "suffix": T.const((ash.Reserved.FLAG,))}),
+    ("nak", {"frame": NakFrameT, "prefix": T.const((ash.Reserved.CANCEL,)), "suffix": T.const((ash.Reserved.FLAG,))}),
+    ("rst", {"frame": RstFrameT, "prefix": T.const((ash.Reserved.CANCEL,)), "suffix": T.const((ash.Reserved.FLAG,))}),
+    ("data", {"frame": DataFrameOutT, "prefix": T.const(()), "suffix": T.const((ash.Reserved.FLAG,))}),
+]
+
+
+# ---------------------------------------------------------------------------------------------------
+# parsing is the inverse of encoding (lemma over the bodies of to_bytes / parse_frame)
+# ---------------------------------------------------------------------------------------------------
+def frame_roundtrip(frame):
+    return ash.parse_frame(frame.to_bytes())
+
+
+@contract("contracts.ash_wire.frame_roundtrip", props=["C03"])
+def _(c):
+    c.cases(
+        ("ack", {"frame": AckFrameT}),
+        ("nak", {"frame": NakFrameT}),
+        ("rst", {"frame": RstFrameT}),
+        ("rstack", {"frame": RStackFrameT}),
+        ("error", {"frame": ErrorFrameT}),
+    )
+    # "parsing is the exact inverse of encoding for all field values": control frames (all field values, all
+    # 256 reset codes); DATA frames are covered by to_bytes / from_bytes against the same layout + the
+    # involution lemma of the randomisation below
+    c.ensures("lemma.parse_inverts_encode", lambda frame, result: result == frame)
+    c.inline_callees = True
+
+
+# ---------------------------------------------------------------------------------------------------
+# specification-level lemmas (independent of /repo) and table obligations
+# ---------------------------------------------------------------------------------------------------
+def spec_crc_step(crc, byte):
+    """CRC-CCITT, polynomial x^16 + x^12 + x^5 + 1, MSB first (UG101 / ITU-T V.41)"""
+    crc ^= byte << 8
+    for _ in range(8):
+        crc = ((crc << 1) ^ 0x1021) & 0xFFFF if crc & 0x8000 else (crc << 1) & 0xFFFF
+    return crc
+
+
+def spec_crc(data, seed=0xFFFF):
+    c_ = seed
+    for b in data:
+        c_ = spec_crc_step(c_, b)
+    return c_
+
+
+MAX_FRAME_BYTES = 1 + 256 + 2  # control byte, longest payload the host can de-randomise, CRC
+
+
+def _wire_lemmas(tier):
+    import time
+
+    import z3
+
+    out = []
+
+    def ob(name, ok, backend, detail, t0, witness=None):
+        out.append({"name": name, "verdict": "proved" if ok else "refuted", "backend": backend, "t": round(time.time() - t0, 3),
+                    "detail": detail, "witness": witness if not ok else None})
+
+    # --- the live pseudo-random table is the specification's sequence, and is what the module computes once
+    t0 = time.time()
+    live = bytes(ash.PSEUDO_RANDOM_DATA_SEQUENCE)
+    bad = [i for i in range(256) if i >= len(live) or live[i] != SPEC_SEQ[i]]
+    ob("bellows.ash.PSEUDO_RANDOM_DATA_SEQUENCE::table.is_spec_lfsr_sequence", len(live) == 256 and not bad, "live-table",
+       "256 positions against lfsr^i(0x42)", t0, {"first_mismatch": bad[:3], "len": len(live)})
+    import ast as _ast
+
+    from pyvc import source
+
+    tree, _text = source.module_ast("bellows.ash")
+    src = [_ast.unparse(s.value) for s in tree.body if isinstance(s, _ast.Assign)
+           and any(_ast.unparse(t_) == "PSEUDO_RANDOM_DATA_SEQUENCE" for t_ in s.targets)]
+    ob("bellows.ash.PSEUDO_RANDOM_DATA_SEQUENCE::table.computed_by_generate_random_sequence",
+       src == ["generate_random_sequence(256)"], "source", str(src), t0, {"source": src})
+    live_reserved = sorted(int(x) for x in ash.RESERVED_BYTES)
+    ob("bellows.ash.RESERVED_BYTES::table.is_spec_reserved_set", live_reserved == sorted(SPEC_RESERVED), "live-table",
+       str(live_reserved), t0, {"live": live_reserved})
+
+    # --- randomisation is an involution on every position (x ^ s ^ s == x): one bit-vector query
+    t0 = time.time()
+    x, s_ = z3.BitVecs("x s", 8)
+    sol = z3.Solver()
+    sol.add((x ^ s_) ^ s_ != x)
+    ob("spec.randomize::lemma.involution", sol.check() == z3.unsat, "z3", "forall x s: (x ^ s) ^ s == x", t0)
+
+    # --- stuffing: per-byte step lemmas (the step functions only append to the output, so they are
+    #     independent of what was produced before; exhaustive over all 256 byte values)
+    t0 = time.time()
+    bad = []
+    for b in range(256):
+        st = stuff_step(b"", b)
+        if any(y in SPEC_RESERVED and y != ESCAPE for y in st):
+            bad.append(("reserved byte in stuffed output", b))
+        state = (b"", False, False)
+        for y in st:
+            state = unstuff_step(*state, y)
+        if state != (bytes([b]), False, False):
+            bad.append(("unstuff(stuff(x)) != x", b))
+    ob("spec.stuff::lemma.no_reserved_byte_but_escape_and_unstuff_inverts", not bad, "exhaustive-256",
+       "induction step of: stuff(d) contains no reserved byte other than ESCAPE; unstuff(stuff(d)) == d without error", t0,
+       {"failures": bad[:4]})
+
+    # --- CRC: "a frame whose unstuffed bytes differ from a valid frame in one or two bits is rejected"
+    t0 = time.time()
+    c1, c2 = z3.BitVecs("c1 c2", 16)
+    b1, b2 = z3.BitVecs("b1 b2", 8)
+
+    def zstep(c_, b_):
+        c_ = c_ ^ (z3.ZeroExt(8, b_) << 8)
+        for _ in range(8):
+            c_ = z3.If(z3.Extract(15, 15, c_) == 1, (c_ << 1) ^ 0x1021, c_ << 1)
+        return c_
+
+    sol = z3.Solver()
+    sol.add(zstep(c1 ^ c2, b1 ^ b2) != zstep(c1, b1) ^ zstep(c2, b2))
+    lin = sol.check() == z3.unsat
+    ob("spec.crc::lemma.step_is_gf2_linear", lin, "z3", "crc_step(c1^c2, b1^b2) == crc_step(c1,b1) ^ crc_step(c2,b2)", t0)
+    t0 = time.time()
+    # single-bit syndromes: CRC (seed 0) of a frame that is zero except for one bit; by linearity the check of a
+    # corrupted frame fails iff the syndrome of the error pattern (XOR of single-bit syndromes) is non-zero
+    nbits = 8 * MAX_FRAME_BYTES
+    synd = []
+    for k in range(nbits):
+        pat = bytearray(MAX_FRAME_BYTES)
+        pat[k // 8] = 0x80 >> (k % 8)
+        # syndrome of the whole pattern including the CRC field positions: crc(body) ^ trailer
+        body, trailer = bytes(pat[:-2]), int.from_bytes(pat[-2:], "big")
+        synd.append(spec_crc(body, 0) ^ trailer)
+    nonzero = all(v != 0 for v in synd)
+    distinct = len(set(synd)) == len(synd)
+    ob("spec.crc::lemma.one_and_two_bit_errors_detected", nonzero and distinct, "exhaustive",
+       f"{nbits} single-bit syndromes of a maximal frame are non-zero and pairwise distinct (so no 1- or 2-bit pattern has syndrome 0)",
+       t0, {"nonzero": nonzero, "distinct": distinct})
+    return out
+
+
+_index.extra("C03")(_wire_lemmas)
+
+
+def _crc_standin(seed, tier):
+    """bounded validation of the ASSUMPTION binascii.crc_hqx(d, 0xFFFF) == specification CRC"""
+    import binascii
+    import random
+
+    rnd = random.Random(seed)
+    n = 20000 if tier == "thorough" else 2000
+    failures, samples = [], []
+    for i in range(n):
+        d = bytes(rnd.getrandbits(8) for _ in range(rnd.choice([0, 1, 2, 3, 5, 8, 13, 40, 130, 259])))
+        a, b = binascii.crc_hqx(d, 0xFFFF), spec_crc(d)
+        if a != b:
+            failures.append({"obligation": "assumed.crc_hqx_is_spec_crc", "inputs": {"data": d.hex()}})
+        elif len(samples) < 3:
+            samples.append({"data": d.hex()[:40], "crc": hex(a)})
+    return {"name": "binascii.crc_hqx == specification CRC-CCITT (assumed)", "evaluations": n, "distinct": n,
+            "bound": f"{n} random byte strings of lengths 0..259, seed {seed}", "samples": samples, "failures": failures[:3],
+            "label": "bounded"}
+
+
+_index.standin("C03")(_crc_standin)
